@@ -32,6 +32,7 @@ type World struct {
 	exprCache map[exprKey]*Expr
 	builders  map[*ssa.Function]*builder
 	effCache  map[*ssa.Function][]Effect
+	rootSet   map[*ssa.Function]bool
 	sumCache  map[*ssa.Function]*Expr
 	building  map[*ssa.Function]bool
 
